@@ -680,7 +680,14 @@ class _Bag:
 def f_vars_order():
     a = _Bag('x', after=1, body=2)
     b = _Bag('x', body=2, after=1)
-    return list(vars(a)), list(vars(b).values()), list(a.__dict__.items()), vars(b)['body'], 'kind' in vars(a), len(vars(a))
+    c = _Bag('y')
+    fields = vars(c)
+    fields.update({'p': 1, 'q': 2})
+    fields['r'] = c.p + c.q
+    c.__dict__.setdefault('s', 9)
+    del fields['q']
+    return (list(vars(a)), list(vars(b).values()), list(a.__dict__.items()), vars(b)['body'], 'kind' in vars(a), len(vars(a)),
+            c.p, c.r, c.s, hasattr(c, 'q'), sorted(vars(c)))
 
 
 def _gen3(n):
